@@ -70,6 +70,11 @@ def build_tree(rng, root):
     w(os.path.join(root, fs1), "<schema extends=%s><multikey name='k'/><key name='inc'/></schema>" % _qa(q(d1 + "/" + midn) + "#x"))
     w(os.path.join(lib, fmid), "<schema><import src=%s/><key name='mid' default='m'/></schema>" % _qa(q(d2 + "/" + basen) + "#types"))
     w(os.path.join(root, fs2), "<schema extends=%s><multikey name='k'/><key name='inc'/></schema>" % _qa(q(d1 + "/" + fmid)))
+    # a schema whose <import src=…> needs percent-escapes (sibling file with a space and a non-ASCII letter in its name)
+    tyn = "ty pes \u00e9" + rand_name(rng, ".xml")
+    impn = rand_name(rng, "-imp.xml")
+    w(os.path.join(lib, tyn), "<schema><sectiontype name='imported'><key name='ik' default='from-import'/></sectiontype></schema>")
+    w(os.path.join(lib, impn), "<schema><import src=%s/><section type='imported' name='*' attribute='imp'/></schema>" % _qa(q(tyn)))
     # a configuration reached through a symbolic link: references in it resolve against the NAME it was given by (all
     # four entry points alike), not against the link's target
     store, site = os.path.join(root, "store" + rand_name(rng, "")), os.path.join(root, "site" + rand_name(rng, ""))
@@ -82,6 +87,7 @@ def build_tree(rng, root):
     os.symlink(os.path.join(store, "real-" + ln), os.path.join(site, ln))
     return {"schema": os.path.join(root, topn), "config": os.path.join(root, mainn), "dirs": [root, lib, deep, os.path.dirname(root)],
             "expect_k": ["from-main", "from-a", "from-b"],
+            "import_schema": os.path.join(lib, impn), "same_rel": (d2 + "/" + basen, d2 + "/" + bn, root, lib),
             "linked_config": os.path.join(site, ln), "linked_expect": ["from-linked", "part-next-to-link", "done"],
             "frag_configs": [os.path.join(root, fm1), os.path.join(root, fm2)],
             "frag_schemas": [os.path.join(root, fs1), os.path.join(root, fs2)]}
@@ -251,6 +257,46 @@ def run(ctx):
                             ctx.violate("configuration loaded by %s from cwd %r gives %r" % (cway, cwd, got),
                                         {"tree": _listing(root), "cwd": cwd, "way": cway, "arg": carg, "got": got, "expected": t["expect_k"]},
                                         signature="C18:config:%s:%s" % (cway, "exc" if isinstance(got, str) else "wrong-resource"))
+            # <import src> with percent-escapes: same schema through all four entry points
+            for cwd in t["dirs"]:
+                os.chdir(cwd)
+                for way, arg in ways(t["import_schema"], cwd):
+                    ctx.evaluations += 1
+                    ctx.nontriv((root, cwd, way, "import-src"))
+                    try:
+                        if way.startswith("fileobj"):
+                            with open(arg, encoding="utf-8") as f:
+                                sc = ZConfig.loadSchemaFile(f)
+                        else:
+                            sc = ZConfig.loadSchema(arg)
+                        got = sc.gettype("imported").getinfo("ik").getdefault().value
+                    except Exception as e:
+                        got = "EXC:%s:%s" % (type(e).__name__, str(e)[:60])
+                    if got != "from-import":
+                        ctx.violate("schema with an <import src> needing percent-escapes, loaded by %s from cwd %r: %r" % (way, cwd, got),
+                                    {"tree": _listing(root), "cwd": cwd, "way": way, "arg": arg, "got": got},
+                                    signature="C18:import-src:%s:%s" % (way, "exc" if got.startswith("EXC") else "wrong-resource"))
+            # one loader object, the SAME relative path string from two directories: each time the file below the current directory
+            rel_schema, rel_conf, dir_a, dir_b = t["same_rel"]
+            sl2 = SchemaLoader()
+            sch_k = ZConfig.loadSchemaFile(io.StringIO("<schema><multikey name='k'/></schema>"))
+            cl2 = ConfigLoader(sch_k)
+            for cwd, who_want, k_want in ((dir_a, "decoy", ["DECOY"]), (dir_b, "right", ["from-b"]), (dir_a, "decoy", ["DECOY"])):
+                os.chdir(cwd)
+                ctx.evaluations += 1
+                try:
+                    who = sl2.loadURL(rel_schema).getinfo("who").getdefault().value
+                except Exception as e:
+                    who = "EXC:%s" % type(e).__name__
+                try:
+                    kk = list(cl2.loadURL(rel_conf)[0].k)
+                except Exception as e:
+                    kk = "EXC:%s" % type(e).__name__
+                if who != who_want or kk != k_want:
+                    ctx.violate("a loader reused after chdir to %r resolved the relative paths %r / %r to %r / %r (expected %r / %r)" % (
+                        cwd, rel_schema, rel_conf, who, kk, who_want, k_want),
+                        {"tree": _listing(root), "cwd": cwd, "rel": [rel_schema, rel_conf]}, signature="C18:reused-loader:same-relative-path")
+                    break
             # the symbolic link: same result through all four entry points
             for cwd in t["dirs"]:
                 os.chdir(cwd)
